@@ -856,4 +856,563 @@ theorem CbInv.congr {nil : Bool} {N : Nat} {q : Nat → Bool} {L0 : List Int} {a
     simp only [Bool.false_eq_true, if_false] at h ⊢
     rw [logOf_congr h1, h2]; exact h
 
+theorem BufOK_tape {pj : PJ} (hb : BufOK pj) (tp : Array UInt64) : BufOK { pj with tape := tp } := hb
+
+/-- the loop of `Object.DeleteElems`: IS `View.deleteElems` as long as every deleted member ends inside the view; panics
+    otherwise.  `nil` is `fn == nil` (then every selected member is deleted and nothing is logged), `q` the answers. -/
+theorem objDel_loop (nil : Bool) (N : Nat) (q : Nat → Bool) (L0 : List Int) (ks : List Bytes) : ∀ (n : Nat) (pj : PJ)
+    (tmp : Iter) (acc : Array (Bytes × Iter)) (e : Env) (fuel mf : Nat), BufOK pj →
+    tmp.lim - pos tmp < n → 0 ≤ tmp.addNext → n ≤ mf → n + tmp.lim + 6 ≤ fuel → tmp.lim ≤ pj.tape.size →
+    ItInv pj "tmp" tmp e → e.get "onlyKeys" = some (.keys ks) → e.get "fn==nil" = some (.bool nil) →
+    CbInv nil N q L0 acc e → (nil = false → acc.size + (tmp.lim - pos tmp) ≤ N) →
+    if objDelInView pj (fun k _ => nil || q k) ks tmp acc.size mf = true then
+      match View.deleteElems pj (fun k _ => nil || q k) ks tmp acc.size acc mf with
+      | .ok (pj', its) => ∃ e', exec1 goFuns fuel (.loop odeLoopBody) ⟨e, pj.tape⟩ = .ret ⟨e', pj'.tape⟩ [.bool false] ∧
+          CbInv nil N q L0 its e'
+      | .error _ => ∃ s', exec1 goFuns fuel (.loop odeLoopBody) ⟨e, pj.tape⟩ = .ret s' [.bool true]
+      | .panic => exec1 goFuns fuel (.loop odeLoopBody) ⟨e, pj.tape⟩ = .panic
+      | .diverge => False
+    else exec1 goFuns fuel (.loop odeLoopBody) ⟨e, pj.tape⟩ = .panic := by
+  intro n
+  induction n with
+  | zero => intro pj tmp acc e fuel mf _ h; omega
+  | succ n ih =>
+    intro pj tmp acc e fuel mf hb hm h0 hmf hf hl inv hk hnil hcb hN
+    obtain ⟨m, rfl⟩ : ∃ m, mf = m + 1 := ⟨mf - 1, by omega⟩
+    obtain ⟨F, rfl⟩ : ∃ F, fuel = F + 2 := ⟨fuel - 2, by omega⟩
+    have hA := objHeadA_run pj e tmp F (.assign "startO" (.bin .sub (.v "tmp.off") (.int 1)) ::
+      (objHeadB ++ (objFilter :: (objValue ++ [odeTail])))) inv hl (by omega)
+    rw [objDelInView, View.deleteElems, exec1, odeLoopBody_eq]
+    cases hr : tmp.advance pj with
+    | panic => rw [hr] at hA; simp only [] at hA; rw [hA]; simp
+    | error _ => rw [hr] at hA; exact hA.elim
+    | diverge => rw [hr] at hA; exact hA.elim
+    | ok r =>
+      obtain ⟨tmp1, typ⟩ := r
+      rw [hr] at hA
+      simp only [] at hA
+      rw [hA]
+      simp only [Res.bind_ok]
+      have inv1 : ItInv pj "tmp" tmp1 ((advEnv e "tmp" tmp1 pj).set "typ" (.u8 typ)) :=
+        (inv.adv tmp1 (by decide) (by decide) (by decide)).set _ _ (by decide)
+      have hfr1 : ∀ k, k ∉ "typ" :: itKeys "tmp" → ((advEnv e "tmp" tmp1 pj).set "typ" (.u8 typ)).get k = e.get k := by
+        intro k hk'
+        simp only [List.mem_cons, not_or] at hk'
+        rw [Env.get_set_ne _ _ (Ne.symm hk'.1), get_advEnv _ _ _ _ _ (by simpa [itKeys] using hk'.2)]
+      generalize (advEnv e "tmp" tmp1 pj).set "typ" (.u8 typ) = E1 at inv1 hfr1 ⊢
+      by_cases hc : typ ≠ typeString ∨ tmp1.off + 1 ≥ tmp1.lim
+      · have hc' : (typ != typeString) = true ∨ tmp1.off + 1 ≥ tmp1.lim := by
+          rcases hc with h | h
+          · exact Or.inl (by simpa using h)
+          · exact Or.inr h
+        rw [if_pos hc, if_pos hc', if_pos hc']
+        simp only [if_true]
+        by_cases hn : typ = typeNone
+        · subst hn
+          simp only [beq_self_eq_true, if_true, Bool.not_true]
+          exact ⟨E1, rfl, hcb.congr (hfr1 _ (by decide)) (hfr1 _ (by decide))⟩
+        · have hn' : (typ == typeNone) = false := by simpa using hn
+          simp only [hn', Bool.false_eq_true, if_false, Bool.not_false]
+          exact ⟨_, rfl⟩
+      · have hc' : ¬ ((typ != typeString) = true ∨ tmp1.off + 1 ≥ tmp1.lim) := by
+          intro h
+          apply hc
+          rcases h with h | h
+          · exact Or.inl (by simpa using h)
+          · exact Or.inr h
+        rw [if_neg hc, if_neg hc', if_neg hc']
+        have hts : typ = typeString := by
+          apply Classical.byContradiction; intro h; exact hc (Or.inl h)
+        have htn : typ ≠ typeNone := by rw [hts]; decide
+        have h2 : tmp1.off + 1 < tmp1.lim := by omega
+        obtain ⟨f1, f2, f3, f4, f5, _⟩ := advance_facts pj tmp h0 tmp1 typ hr htn
+        -- startO := tmp.off - 1
+        have hso : exec1 goFuns (F + 1) (.assign "startO" (.bin .sub (.v "tmp.off") (.int 1))) ⟨E1, pj.tape⟩ =
+            .normal ⟨E1.set "startO" (.int ((tmp1.off - 1 : Nat) : Int)), pj.tape⟩ := by
+          have : (tmp1.off : Int) - 1 = ((tmp1.off - 1 : Nat) : Int) := by omega
+          simp [(iterAt_get_tmp _ _ inv1.it).1, this]
+        rw [exec, hso]
+        simp only []
+        have inv1' : ItInv pj "tmp" tmp1 (E1.set "startO" (.int ((tmp1.off - 1 : Nat) : Int))) :=
+          inv1.set _ _ (by decide)
+        obtain ⟨w, hw, hB⟩ := objHeadB_run pj (E1.set "startO" (.int ((tmp1.off - 1 : Nat) : Int))) tmp1 F
+          (objFilter :: (objValue ++ [odeTail])) hb inv1' (by omega) h2
+        simp only [rd, hw, Res.bind_ok]
+        cases hsb : stringByteAt pj tmp1.cur w with
+        | panic => have := stringByteAt_safe pj tmp1.cur w; rw [hsb] at this; cases this
+        | diverge => have := stringByteAt_safe pj tmp1.cur w; rw [hsb] at this; cases this
+        | error _ =>
+          rw [hsb] at hB
+          obtain ⟨e', hx⟩ := hB
+          rw [hx]
+          simp only [if_true]
+          exact ⟨_, rfl⟩
+        | ok name =>
+          rw [hsb] at hB
+          obtain ⟨e2, hx, inv2, hname, hfr2⟩ := hB
+          rw [hx]
+          simp only [Res.bind_ok]
+          have hget2 : ∀ k, k ∉ "startO" :: "typ" :: (headBKeys ++ itKeys "tmp") → e2.get k = e.get k := by
+            intro k hk'
+            simp only [List.mem_cons, List.mem_append, not_or] at hk'
+            rw [hfr2 _ hk'.2.2.1, Env.get_set_ne _ _ (Ne.symm hk'.1),
+              hfr1 _ (by simp only [List.mem_cons, not_or]; exact ⟨hk'.2.1, by simpa [itKeys] using hk'.2.2.2⟩)]
+          have hk2 : e2.get "onlyKeys" = some (.keys ks) := by rw [hget2 _ (by decide), hk]
+          have hnil2 : e2.get "fn==nil" = some (.bool nil) := by rw [hget2 _ (by decide), hnil]
+          have hcb2 : CbInv nil N q L0 acc e2 := hcb.congr (hget2 _ (by decide)) (hget2 _ (by decide))
+          have hso2 : e2.get "startO" = some (.int ((tmp1.off - 1 : Nat) : Int)) := by
+            rw [hfr2 _ (by decide), Env.get_set_self]
+          have hFl := objFilter_run pj e2 tmp1 name ks F (objValue ++ [odeTail]) inv2 hname hk2 (by omega) (by omega)
+          by_cases hcond : ks.length > 0 ∧ (!ks.contains name) = true
+          · rw [if_pos hcond] at hFl
+            simp only [if_pos hcond]
+            cases hr2 : tmp1.advance pj with
+            | panic => rw [hr2] at hFl; simp only [] at hFl; rw [hFl]; simp
+            | error _ => rw [hr2] at hFl; exact hFl.elim
+            | diverge => rw [hr2] at hFl; exact hFl.elim
+            | ok r2 =>
+              obtain ⟨tmp2, t⟩ := r2
+              rw [hr2] at hFl
+              simp only [] at hFl
+              rw [hFl]
+              simp only [Res.bind_ok]
+              have inv3 : ItInv pj "tmp" tmp2 ((advEnv (e2.set "ok" (.bool false)) "tmp" tmp2 pj).set "t" (.u8 t)) :=
+                ((inv2.set _ _ (by decide)).adv tmp2 (by decide) (by decide) (by decide)).set _ _ (by decide)
+              have hfr3 : ∀ k, k ∉ "t" :: "ok" :: itKeys "tmp" →
+                  ((advEnv (e2.set "ok" (.bool false)) "tmp" tmp2 pj).set "t" (.u8 t)).get k = e2.get k := by
+                intro k hk'
+                simp only [List.mem_cons, not_or] at hk'
+                rw [Env.get_set_ne _ _ (Ne.symm hk'.1), get_advEnv _ _ _ _ _ (by simpa [itKeys] using hk'.2.2),
+                  Env.get_set_ne _ _ (Ne.symm hk'.2.1)]
+              generalize (advEnv (e2.set "ok" (.bool false)) "tmp" tmp2 pj).set "t" (.u8 t) = E3 at inv3 hfr3 ⊢
+              by_cases ht : t = typeNone
+              · subst ht
+                simp only [if_true, beq_self_eq_true]
+                exact ⟨E3, rfl, hcb2.congr (hfr3 _ (by decide)) (hfr3 _ (by decide))⟩
+              · have ht' : (t == typeNone) = false := by simpa using ht
+                obtain ⟨q1, q2, q3, q4, q5, _⟩ := advance_facts pj tmp1 f4 tmp2 t hr2 ht
+                simp only [ht, ht', if_false, Bool.false_eq_true]
+                exact ih pj tmp2 acc E3 (F + 1) m hb (by unfold pos at hm ⊢; omega) q4 (by omega) (by omega)
+                  (by omega) inv3 (by rw [hfr3 _ (by decide), hk2]) (by rw [hfr3 _ (by decide), hnil2])
+                  (hcb2.congr (hfr3 _ (by decide)) (hfr3 _ (by decide)))
+                  (fun hh => by have := hN hh; unfold pos at this ⊢; omega)
+          · rw [if_neg hcond] at hFl
+            simp only [if_neg hcond]
+            obtain ⟨e3, hx3, hfr3⟩ := hFl
+            rw [hx3]
+            have inv3 : ItInv pj "tmp" tmp1 e3 := inv2.congr (fun k hk' => hfr3 k (by revert k; decide))
+            have hV := objValue_run pj e3 tmp1 F [odeTail] inv3 (by omega) (by omega)
+            cases hr2 : tmp1.advance pj with
+            | panic => rw [hr2] at hV; simp only [] at hV; rw [hV]; simp
+            | error _ => rw [hr2] at hV; exact hV.elim
+            | diverge => rw [hr2] at hV; exact hV.elim
+            | ok r2 =>
+              obtain ⟨tmp2, t⟩ := r2
+              rw [hr2] at hV
+              simp only [] at hV
+              rw [hV]
+              simp only [Res.bind_ok]
+              have inv4 : ItInv pj "tmp" tmp2 ((advEnv e3 "tmp" tmp2 pj).set "t" (.u8 t)) :=
+                (inv3.adv tmp2 (by decide) (by decide) (by decide)).set _ _ (by decide)
+              have hfr4 : ∀ k, k ∉ "t" :: "ok" :: itKeys "tmp" →
+                  ((advEnv e3 "tmp" tmp2 pj).set "t" (.u8 t)).get k = e2.get k := by
+                intro k hk'
+                simp only [List.mem_cons, not_or] at hk'
+                rw [Env.get_set_ne _ _ (Ne.symm hk'.1), get_advEnv _ _ _ _ _ (by simpa [itKeys] using hk'.2.2),
+                  hfr3 _ hk'.2.1]
+              generalize (advEnv e3 "tmp" tmp2 pj).set "t" (.u8 t) = E4 at inv4 hfr4 ⊢
+              by_cases ht : t = typeNone
+              · subst ht
+                simp only [if_true, beq_self_eq_true]
+                exact ⟨E4, rfl, hcb2.congr (hfr4 _ (by decide)) (hfr4 _ (by decide))⟩
+              · have ht' : (t == typeNone) = false := by simpa using ht
+                obtain ⟨q1, q2, q3, q4, q5, _⟩ := advance_facts pj tmp1 f4 tmp2 t hr2 ht
+                simp only [ht, ht', if_false, Bool.false_eq_true]
+                have hk4 : E4.get "onlyKeys" = some (.keys ks) := by rw [hfr4 _ (by decide), hk2]
+                have hnil4 : E4.get "fn==nil" = some (.bool nil) := by rw [hfr4 _ (by decide), hnil2]
+                have hcb4 : CbInv nil N q L0 acc E4 := hcb2.congr (hfr4 _ (by decide)) (hfr4 _ (by decide))
+                have hso4 : E4.get "startO" = some (.int ((tmp1.off - 1 : Nat) : Int)) := by
+                  rw [hfr4 _ (by decide), hso2]
+                have hname4 : E4.get "name" = some (.bytes name) := by rw [hfr4 _ (by decide), hname]
+                have hpos : ((tmp2.off : Int) + tmp2.addNext).toNat = pos tmp2 := by unfold pos; omega
+                have hN' : nil = false → (acc.push (name, tmp2)).size + (tmp2.lim - pos tmp2) ≤ N := by
+                  intro hh; have := hN hh; rw [Array.size_push]; unfold pos at this ⊢; omega
+                have hmeas : tmp2.lim - pos tmp2 < n := by unfold pos at hm ⊢; omega
+                rw [exec]
+                -- the part shared by both ways into the fill: run `objFillStmts` on a store `E` and go round the loop
+                have hdel : ∀ (E : Env), ItInv pj "tmp" tmp2 E → E.get "onlyKeys" = some (.keys ks) →
+                    E.get "fn==nil" = some (.bool nil) → CbInv nil N q L0 (acc.push (name, tmp2)) E →
+                    E.get "startO" = some (.int ((tmp1.off - 1 : Nat) : Int)) →
+                    if (decide ((tmp2.off : Int) + tmp2.addNext ≤ tmp2.lim) &&
+                        (match View.fillNops pj.tape (tmp1.off - 1) (pos tmp2) with
+                         | .ok tp => objDelInView { pj with tape := tp } (fun k _ => nil || q k) ks tmp2 (acc.size + 1) m
+                         | _ => true)) = true then
+                      match (do
+                          let pj ← (do
+                            let tp ← View.fillNops pj.tape (tmp1.off - 1) (pos tmp2)
+                            Res.ok { pj with tape := tp })
+                          View.deleteElems pj (fun k _ => nil || q k) ks tmp2 (acc.size + 1) (acc.push (name, tmp2)) m :
+                            Res (PJ × Array (Bytes × Iter))) with
+                      | .ok (pj', its) => ∃ e', (match (match exec goFuns (F + 1) objFillStmts ⟨E, pj.tape⟩ with
+                            | .normal s' => exec goFuns (F + 1) [] s'
+                            | o => o) with
+                          | .normal s' => exec1 goFuns (F + 1) (.loop odeLoopBody) s'
+                          | .cont s' => exec1 goFuns (F + 1) (.loop odeLoopBody) s'
+                          | .brk s' => .normal s'
+                          | o => o) = .ret ⟨e', pj'.tape⟩ [.bool false] ∧ CbInv nil N q L0 its e'
+                      | .error _ => ∃ s', (match (match exec goFuns (F + 1) objFillStmts ⟨E, pj.tape⟩ with
+                            | .normal s' => exec goFuns (F + 1) [] s'
+                            | o => o) with
+                          | .normal s' => exec1 goFuns (F + 1) (.loop odeLoopBody) s'
+                          | .cont s' => exec1 goFuns (F + 1) (.loop odeLoopBody) s'
+                          | .brk s' => .normal s'
+                          | o => o) = .ret s' [.bool true]
+                      | .panic => (match (match exec goFuns (F + 1) objFillStmts ⟨E, pj.tape⟩ with
+                            | .normal s' => exec goFuns (F + 1) [] s'
+                            | o => o) with
+                          | .normal s' => exec1 goFuns (F + 1) (.loop odeLoopBody) s'
+                          | .cont s' => exec1 goFuns (F + 1) (.loop odeLoopBody) s'
+                          | .brk s' => .normal s'
+                          | o => o) = .panic
+                      | .diverge => False
+                    else (match (match exec goFuns (F + 1) objFillStmts ⟨E, pj.tape⟩ with
+                            | .normal s' => exec goFuns (F + 1) [] s'
+                            | o => o) with
+                          | .normal s' => exec1 goFuns (F + 1) (.loop odeLoopBody) s'
+                          | .cont s' => exec1 goFuns (F + 1) (.loop odeLoopBody) s'
+                          | .brk s' => .normal s'
+                          | o => o) = .panic := by
+                  intro E invE hkE hnilE hcbE hsoE
+                  have hfill := objFill_run E pj.tape (F + 1) tmp2 (tmp1.off - 1) invE.it hsoE
+                    (by unfold pos; omega) q4 (by omega)
+                  by_cases hv : pos tmp2 ≤ tmp2.lim
+                  · have hdec : decide ((tmp2.off : Int) + tmp2.addNext ≤ tmp2.lim) = true := by
+                      simp only [decide_eq_true_eq]; unfold pos at hv; omega
+                    rw [nopFillV_eq_nopFill _ _ _ _ _ (Nat.le_refl _) hv] at hfill
+                    simp only [hdec, Bool.true_and, View.fillNops]
+                    cases hnf : Iter.nopFill pj.tape (tmp1.off - 1) (pos tmp2) with
+                    | ok tp =>
+                      rw [hnf] at hfill
+                      obtain ⟨e5, hx5, hfr5⟩ := hfill
+                      rw [hx5]
+                      simp only [Res.bind_ok, exec]
+                      have hsz : tp.size = pj.tape.size := nopFill_size _ _ _ _ _ (Nat.le_refl _) hnf
+                      have inv5 : ItInv { pj with tape := tp } "tmp" tmp2 e5 :=
+                        ItInv.congr (pj := { pj with tape := tp }) ⟨invE.it, invE.sb, invE.ms⟩
+                          (fun k hk' => hfr5 k (by revert k; decide))
+                      have := ih { pj with tape := tp } tmp2 (acc.push (name, tmp2)) e5 (F + 1) m (BufOK_tape hb tp)
+                        hmeas q4 (by omega) (by omega) (by simp only; omega) inv5
+                        (by rw [hfr5 _ (by decide), hkE]) (by rw [hfr5 _ (by decide), hnilE])
+                        (hcbE.congr (hfr5 _ (by decide)) (hfr5 _ (by decide))) hN'
+                      rw [Array.size_push] at this
+                      exact this
+                    | panic =>
+                      rw [hnf] at hfill
+                      rw [hfill]
+                      simp
+                    | error _ => rw [hnf] at hfill; exact hfill.elim
+                    | diverge => rw [hnf] at hfill; exact hfill.elim
+                  · have hdec : decide ((tmp2.off : Int) + tmp2.addNext ≤ tmp2.lim) = false := by
+                      simp only [decide_eq_false_iff_not]; unfold pos at hv; omega
+                    rw [nopFillV_panic _ _ _ _ _ (Nat.le_refl _) (by unfold pos; omega) (by omega)] at hfill
+                    simp only [hdec, Bool.false_and, Bool.false_eq_true, if_false]
+                    rw [hfill]
+                have hneg : ¬ ((tmp2.off : Int) + tmp2.addNext < 0) := by omega
+                cases nil with
+                | true =>
+                  have hite : exec1 goFuns (F + 1) odeTail ⟨E4, pj.tape⟩ = exec goFuns (F + 1) objFillStmts ⟨E4, pj.tape⟩ := by
+                    rw [odeTail, exec1]
+                    simp only [evalE, hnil4]
+                  rw [hite]
+                  simp only [Bool.true_or, if_true, hneg, if_false, hpos]
+                  have hcbE : CbInv true N q L0 (acc.push (name, tmp2)) E4 := by
+                    unfold CbInv at hcb4 ⊢
+                    simpa using hcb4
+                  exact hdel E4 inv4 hk4 hnil4 hcbE hso4
+                | false =>
+                  simp only [Bool.false_or]
+                  have hkN : acc.size < N := by have := hN rfl; unfold pos at this; omega
+                  have hres4 : E4.get "fn.results" = some (.bools (q acc.size :: (answers N q).drop (acc.size + 1))) := by
+                    unfold CbInv at hcb4
+                    simp only [Bool.false_eq_true, if_false] at hcb4
+                    rw [hcb4.2, answers_drop N q _ hkN]
+                  have hlog4 : logOf E4 = encNIs acc := by
+                    unfold CbInv at hcb4
+                    simp only [Bool.false_eq_true, if_false] at hcb4
+                    exact hcb4.1
+                  have hcbq := exec1_cbq_tmp E4 pj.tape (F + 1) tmp2 name (q acc.size) _ inv4.it hname4 hres4
+                  generalize hE5 : (((E4.set "fn.log" (.ints (logOf E4 ++ encNI (name, tmp2)))).set "fn.results"
+                    (.bools ((answers N q).drop (acc.size + 1)))).set "#fn" (.bool (q acc.size))) = E5 at hcbq
+                  have inv5 : ItInv pj "tmp" tmp2 E5 := by
+                    subst hE5; exact ((inv4.set _ _ (by decide)).set _ _ (by decide)).set _ _ (by decide)
+                  have hk5 : E5.get "onlyKeys" = some (.keys ks) := by
+                    subst hE5
+                    rw [Env.get_set_ne _ _ (by decide), Env.get_set_ne _ _ (by decide), Env.get_set_ne _ _ (by decide), hk4]
+                  have hnil5 : E5.get "fn==nil" = some (.bool false) := by
+                    subst hE5
+                    rw [Env.get_set_ne _ _ (by decide), Env.get_set_ne _ _ (by decide), Env.get_set_ne _ _ (by decide), hnil4]
+                  have hso5 : E5.get "startO" = some (.int ((tmp1.off - 1 : Nat) : Int)) := by
+                    subst hE5
+                    rw [Env.get_set_ne _ _ (by decide), Env.get_set_ne _ _ (by decide), Env.get_set_ne _ _ (by decide), hso4]
+                  have hfn5 : E5.get "#fn" = some (.bool (q acc.size)) := by subst hE5; rw [Env.get_set_self]
+                  have hcb5 : CbInv false N q L0 (acc.push (name, tmp2)) E5 := by
+                    subst hE5
+                    unfold CbInv
+                    simp only [Bool.false_eq_true, if_false]
+                    refine ⟨?_, ?_⟩
+                    · rw [logOf_congr (e := E4.set "fn.log" (.ints (logOf E4 ++ encNI (name, tmp2))))
+                        (by rw [Env.get_set_ne _ _ (by decide), Env.get_set_ne _ _ (by decide)]),
+                        logOf_set, hlog4, encNIs_push]
+                    · rw [Env.get_set_ne _ _ (by decide), Env.get_set_self, Array.size_push]
+                  have hite : exec1 goFuns (F + 1) odeTail ⟨E4, pj.tape⟩ =
+                      exec goFuns (F + 1) [.ite (.v "#fn") objFillStmts []] ⟨E5, pj.tape⟩ := by
+                    rw [odeTail, exec1]
+                    simp only [evalE, hnil4]
+                    rw [exec, hcbq]
+                  rw [hite]
+                  cases hq : q acc.size with
+                  | false =>
+                    rw [hq] at hfn5
+                    have hite2 : exec goFuns (F + 1) [.ite (.v "#fn") objFillStmts []] ⟨E5, pj.tape⟩ =
+                        .normal ⟨E5, pj.tape⟩ := by
+                      rw [exec, exec1]
+                      simp only [evalE, hfn5, exec]
+                    rw [hite2]
+                    simp only [Bool.false_eq_true, if_false, Res.bind_ok, exec]
+                    have := ih pj tmp2 (acc.push (name, tmp2)) E5 (F + 1) m hb hmeas q4 (by omega) (by omega) (by omega)
+                      inv5 hk5 hnil5 hcb5 hN'
+                    rw [Array.size_push] at this
+                    exact this
+                  | true =>
+                    rw [hq] at hfn5
+                    have hite2 : exec goFuns (F + 1) [.ite (.v "#fn") objFillStmts []] ⟨E5, pj.tape⟩ =
+                        exec goFuns (F + 1) objFillStmts ⟨E5, pj.tape⟩ := by
+                      rw [exec, exec1]
+                      simp only [evalE, hfn5]
+                      generalize exec goFuns (F + 1) objFillStmts _ = out
+                      cases out <;> simp only [exec]
+                    rw [hite2]
+                    simp only [if_true, hneg, if_false, hpos]
+                    exact hdel E5 inv5 hk5 hnil5 hcb5 hso5
+
+/-- `Object.DeleteElems` against `View.deleteElems` -/
+def SimODel (nil : Bool) (N : Nat) (q : Nat → Bool) (L0 : List Int) (o : Out) (r : Res (PJ × Array (Bytes × Iter))) :
+    Prop :=
+  match r with
+  | .ok (pj', its) => ∃ s, o = .ret s [.bool false] ∧ s.tape = pj'.tape ∧ CbInv nil N q L0 its s.env
+  | .error _ => ∃ s, o = .ret s [.bool true]
+  | .panic => o = .panic
+  | .diverge => False
+
+/-- `Object.DeleteElems`, exactly: as long as every deleted member ends inside the view the run IS the model's (with
+    `pred k _ = true` when `fn == nil`, `pred k _ = q k` otherwise); else the Go code panics -/
+theorem objDeleteElems_exact (pj : PJ) (hb : BufOK pj) (v : View) (hl : v.lim ≤ pj.tape.size) (ks : List Bytes)
+    (e0 : Env) (h0 : RecvIn pj "o" v e0) (hk : e0.get "onlyKeys" = some (.keys ks)) (nil : Bool)
+    (hnil : e0.get "fn==nil" = some (.bool nil)) (q : Nat → Bool) (N : Nat) (L0 : List Int)
+    (hcb : CbInv nil N q L0 #[] e0) (hN : nil = false → v.lim - v.off ≤ N) (fuel mf : Nat)
+    (hmf : v.lim - v.off + 1 ≤ mf) (hf : 2 * v.lim + 7 ≤ fuel) :
+    if objDelInView pj (fun k _ => nil || q k) ks v.iter 0 mf = true then
+      SimODel nil N q L0 (runFun goFuns goObject_DeleteElems fuel ⟨e0, pj.tape⟩)
+        (View.deleteElems pj (fun k _ => nil || q k) ks v.iter 0 #[] mf)
+    else runFun goFuns goObject_DeleteElems fuel ⟨e0, pj.tape⟩ = .panic := by
+  have hsplit : goObject_DeleteElems.body = goObject_DeleteElems.body.take 6 ++ [.loop odeLoopBody] := rfl
+  have hinit : exec goFuns fuel (goObject_DeleteElems.body.take 6) ⟨e0, pj.tape⟩ =
+      .normal ⟨objInitEnv e0 v, pj.tape⟩ := by
+    obtain ⟨a1, a2, hS, hM⟩ := h0
+    simp only [String.reduceAppend] at a1 a2
+    simp [goObject_DeleteElems, a1, a2, objInitEnv]
+  have hloop := objDel_loop nil N q L0 ks (v.lim - v.off + 1) pj v.iter #[] (objInitEnv e0 v) fuel mf hb
+    (by simp [pos, View.iter]) (by simp [View.iter]) hmf (by simp [View.iter]; omega) hl
+    (objInitEnv_inv pj v e0 h0)
+    (by rw [objInitEnv_get _ _ _ (by decide), hk])
+    (by rw [objInitEnv_get _ _ _ (by decide), hnil])
+    (hcb.congr (objInitEnv_get _ _ _ (by decide)) (objInitEnv_get _ _ _ (by decide)))
+    (fun hh => by have := hN hh; simp [pos, View.iter]; omega)
+  simp only [List.size_toArray, List.length_nil] at hloop
+  unfold runFun
+  rw [hsplit, exec_append, hinit]
+  simp only []
+  rw [exec]
+  revert hloop
+  generalize exec1 goFuns fuel (.loop odeLoopBody) _ = out
+  by_cases hv : objDelInView pj (fun k _ => nil || q k) ks v.iter 0 mf = true
+  · simp only [hv, if_true]
+    cases View.deleteElems pj (fun k _ => nil || q k) ks v.iter 0 #[] mf with
+    | ok r =>
+      obtain ⟨pj', its⟩ := r
+      rintro ⟨e', rfl, hc⟩
+      exact ⟨_, rfl, rfl, hc⟩
+    | error _ =>
+      rintro ⟨s', rfl⟩
+      exact ⟨_, rfl⟩
+    | panic => rintro rfl; rfl
+    | diverge => exact fun h => h.elim
+  · simp only [hv, if_false]
+    rintro rfl
+    rfl
+
+/-- the static condition `EndsInside` implies the run predicate -/
+theorem objDelInView_of_endsInside (pred : Nat → Bytes → Bool) (ks : List Bytes) : ∀ (mf : Nat) (pj : PJ) (tmp : Iter)
+    (n : Nat), EndsInside tmp.lim pj.tape → tmp.lim < 2^56 → 0 ≤ tmp.addNext →
+    objDelInView pj pred ks tmp n mf = true := by
+  intro mf
+  induction mf with
+  | zero => intro pj tmp n _ _ _; rfl
+  | succ m ih =>
+    intro pj tmp n hw h56 h0
+    rw [objDelInView]
+    cases hr : tmp.advance pj with
+    | panic => rfl
+    | error _ => rfl
+    | diverge => rfl
+    | ok r =>
+      obtain ⟨tmp1, typ⟩ := r
+      simp only []
+      by_cases hc : (typ != typeString) = true ∨ tmp1.off + 1 ≥ tmp1.lim
+      · rw [if_pos hc]
+      · rw [if_neg hc]
+        have hts : typ = typeString := by
+          apply Classical.byContradiction; intro h; exact hc (Or.inl (by simpa using h))
+        have htn : typ ≠ typeNone := by rw [hts]; decide
+        obtain ⟨f1, f2, f3, f4, f5, _⟩ := advance_facts pj tmp h0 tmp1 typ hr htn
+        cases hrd : rd pj.tape tmp1.off with
+        | panic => rfl
+        | error _ => rfl
+        | diverge => rfl
+        | ok len =>
+          simp only []
+          cases hsb : stringByteAt pj tmp1.cur len with
+          | panic => rfl
+          | error _ => rfl
+          | diverge => rfl
+          | ok name =>
+            simp only []
+            cases hr2 : tmp1.advance pj with
+            | panic => simp
+            | error _ => simp
+            | diverge => simp
+            | ok r2 =>
+              obtain ⟨tmp2, t⟩ := r2
+              simp only []
+              by_cases ht : t = typeNone
+              · simp [ht]
+              · have hb : (t == typeNone) = false := by simp [ht]
+                obtain ⟨q1, q2, q3, q4, q5, q6, w, w1, w2, w3, w4, w5⟩ := advance_facts pj tmp1 f4 tmp2 t hr2 ht
+                have hk1 : tmp2.off - 1 + 1 = tmp2.off := by omega
+                have hend := hw (tmp2.off - 1) w (by omega) w1 w4
+                rw [hk1, ← f1, ← w5, ← q1] at hend
+                have ih1 : ∀ k, objDelInView pj pred ks tmp2 k m = true :=
+                  fun k => ih pj tmp2 k (by rw [q1, f1]; exact hw) (by omega) q4
+                simp only [hb, Bool.false_eq_true, if_false, ih1]
+                by_cases hcond : ks.length > 0 ∧ (!ks.contains name) = true
+                · simp only [if_pos hcond]
+                · simp only [if_neg hcond]
+                  cases hq : pred n name with
+                  | false => simp
+                  | true =>
+                    simp only [if_true, Bool.and_eq_true, decide_eq_true_eq]
+                    refine ⟨hend, ?_⟩
+                    cases hnf : View.fillNops pj.tape (tmp1.off - 1) ((tmp2.off : Int) + tmp2.addNext).toNat with
+                    | ok tp =>
+                      simp only []
+                      exact ih { pj with tape := tp } tmp2 (n + 1)
+                        (by rw [q1, f1]; exact hw.fill hnf (by omega)) (by omega) q4
+                    | panic => rfl
+                    | error _ => rfl
+                    | diverge => rfl
+
+/-! ## the model's `deleteElems` depends on the predicate only through its answers, call by call
+
+The log of the translated callback records the LENGTH of the name only, so `objDeleteElems_*` are stated for predicates
+that depend on the call index.  That is no restriction: a run of `View.deleteElems pj pred …` IS the run with the
+index-only predicate `fun k _ => pred k (name of the k-th callback)` read off its own callback list. -/
+
+/-- one iteration of `Object.DeleteElems` up to the callback — the part that does not look at the predicate -/
+inductive OStep where
+  | done (r : Res (PJ × Array (Bytes × Iter)))
+  | skip (tmp2 : Iter)
+  | call (name : Bytes) (tmp1 tmp2 : Iter)
+
+def bindS {α : Type} (x : Res α) (f : α → OStep) : OStep :=
+  match x with
+  | .ok a => f a
+  | .error e => .done (.error e)
+  | .panic => .done .panic
+  | .diverge => .done .diverge
+
+def objStep (pj : PJ) (ks : List Bytes) (tmp : Iter) (acc : Array (Bytes × Iter)) : OStep :=
+  bindS (tmp.advance pj) fun (tmp1, typ) =>
+    if typ != typeString ∨ tmp1.off + 1 >= tmp1.lim then
+      .done (if typ == typeNone then .ok (pj, acc) else .error .generic)
+    else
+      bindS (rd pj.tape tmp1.off) fun len =>
+      bindS (stringByteAt pj tmp1.cur len) fun name =>
+      bindS (tmp1.advance pj) fun (tmp2, t) =>
+        if t == typeNone then .done (.ok (pj, acc))
+        else if ks.length > 0 ∧ !ks.contains name then .skip tmp2 else .call name tmp1 tmp2
+
+/-- the deletion itself -/
+def delFill (pj : PJ) (del : Bool) (tmp1 tmp2 : Iter) : Res PJ :=
+  if del then
+    (if (tmp2.off : Int) + tmp2.addNext < 0 then .panic else do
+      let tp ← View.fillNops pj.tape (tmp1.off - 1) ((tmp2.off : Int) + tmp2.addNext).toNat
+      .ok { pj with tape := tp })
+  else .ok pj
+
+theorem deleteElems_step (pj : PJ) (pred : Nat → Bytes → Bool) (ks : List Bytes) (tmp : Iter) (n : Nat)
+    (acc : Array (Bytes × Iter)) (mf : Nat) :
+    View.deleteElems pj pred ks tmp n acc (mf + 1) =
+      match objStep pj ks tmp acc with
+      | .done r => r
+      | .skip tmp2 => View.deleteElems pj pred ks tmp2 n acc mf
+      | .call name tmp1 tmp2 => delFill pj (pred n name) tmp1 tmp2 >>= fun pj2 =>
+          View.deleteElems pj2 pred ks tmp2 (n + 1) (acc.push (name, tmp2)) mf := by
+  rw [View.deleteElems, objStep]
+  cases tmp.advance pj with
+  | error _ => rfl
+  | panic => rfl
+  | diverge => rfl
+  | ok r =>
+    obtain ⟨tmp1, typ⟩ := r
+    simp only [Res.bind_ok, bindS]
+    by_cases hc : (typ != typeString) = true ∨ tmp1.off + 1 ≥ tmp1.lim
+    · simp only [if_pos hc]
+    · simp only [if_neg hc]
+      cases rd pj.tape tmp1.off with
+      | error _ => rfl
+      | panic => rfl
+      | diverge => rfl
+      | ok len =>
+        simp only [Res.bind_ok]
+        cases stringByteAt pj tmp1.cur len with
+        | error _ => rfl
+        | panic => rfl
+        | diverge => rfl
+        | ok name =>
+          simp only [Res.bind_ok]
+          by_cases hcond : ks.length > 0 ∧ (!ks.contains name) = true
+          · simp only [if_pos hcond]
+            cases tmp1.advance pj with
+            | error _ => rfl
+            | panic => rfl
+            | diverge => rfl
+            | ok r2 =>
+              obtain ⟨tmp2, t⟩ := r2
+              simp only [Res.bind_ok]
+              by_cases ht : (t == typeNone) = true
+              · simp only [if_pos ht]
+              · simp only [if_neg ht]
+          · simp only [if_neg hcond]
+            cases tmp1.advance pj with
+            | error _ => rfl
+            | panic => rfl
+            | diverge => rfl
+            | ok r2 =>
+              obtain ⟨tmp2, t⟩ := r2
+              simp only [Res.bind_ok]
+              by_cases ht : (t == typeNone) = true
+              · simp only [if_pos ht]
+              · simp only [if_neg ht, delFill]
+                cases pred n name <;> rfl
+
 end SJ.GoDelete
